@@ -476,6 +476,11 @@ namespace chaiscript {
     /// \returns All values in the local thread state, added through the add() function
     std::map<std::string, Boxed_Value> get_locals() const { return m_engine.get_locals(); }
 
+#ifdef CHAISCRIPT_VERIF
+    /// verification hook: stack shape of the calling thread (see Dispatch_Engine::verif_stack_shape)
+    auto verif_stack_shape() { return m_engine.verif_stack_shape(); }
+#endif
+
     /// \brief Sets all of the locals for the current thread state.
     ///
     /// \param[in] t_locals The map<name, value> set of variables to replace the current state with
